@@ -450,12 +450,86 @@ async def slow_reader(net, hyg, plan):
         w.cleanup()
 
 
+async def pipelined_rest(net, hyg, plan):
+    """REST, the transfer command and other commands written in one piece: the bytes that move are those of the commands taken
+    one after the other in the order sent (the offset belongs to the transfer command that follows REST directly, and to nothing
+    else), also when the back end's calls take their time."""
+    from ..rawpeer import RawPeer
+    viol = []
+    mon = {"pipelined_rest": 1}
+    content = make_content(plan["kind"], plan["size"], random.Random(plan["seed"]))
+    w = W.World(net, tree={"/d": "<DIR>", "/d/f.bin": content}, backend=plan["backend"], block_size=plan["block_size"])
+    net.loop.exec_delay = plan.get("exec_delay", 0.0)
+    await w.start()
+    if plan.get("backend_delay"):
+        w.ctl.delay = lambda op, path, n: plan["backend_delay"]
+    try:
+        p = RawPeer(net, 2121)
+        await p.connect()
+        await p.cmd("USER anonymous")
+        await p.cmd("TYPE I")
+        port = p.parse_epsv(await p.cmd("EPSV"))
+        dr, dw = await p.open_data(port)
+        k = plan["offset"]
+        seq = [c.replace("{k}", str(k)) for c in plan["commands"]]
+        p.send("\r\n".join(seq))
+        upload = any(c.startswith("STOR") or c.startswith("APPE") for c in seq)
+        payload = b"PAYLOAD-" * 3
+        if upload:
+            dw.write(payload)
+            await asyncio.wait_for(dw.drain(), 30)
+            dw.close()
+            got, st = await p.read_data(dr, wait=30)
+        else:
+            got, st = await p.read_data(dr, wait=30)
+            dw.close()
+        codes = []
+        while True:
+            r = await p.read_reply(wait=3)
+            if r in (None, "EOF"):
+                break
+            codes.append(r.code)
+        # sequential meaning of the piece
+        rest = 0
+        want_data, want_file = None, content
+        for c in seq:
+            v, _, a = c.partition(" ")
+            if v == "REST":
+                rest = int(a)
+            elif v == "RETR":
+                want_data = content[rest:]
+                rest = 0
+            elif v == "STOR":
+                want_file = (content[:rest] + payload + content[rest + len(payload):]) if rest else payload
+                rest = 0
+            elif v == "APPE":
+                want_file = (content[:rest] + payload + content[rest + len(payload):]) if rest else content + payload
+                rest = 0
+            else:
+                rest = 0
+        where = f"{seq} written in one piece on {plan['backend']} (file of {len(content)} bytes): replies {codes}"
+        if want_data is not None and bytes(got) != want_data:
+            viol.append({"key": "pipelined-restart-offset-misapplied:download",
+                         "msg": f"{where}: {len(got)} bytes delivered, the commands in their order mean {len(want_data)} {first_diff(bytes(got), want_data)}"})
+        have = w.tree().get("/d/f.bin")
+        if have != want_file:
+            viol.append({"key": "pipelined-restart-offset-misapplied:upload",
+                         "msg": f"{where}: the file holds {describe(have)}, the commands in their order mean {describe(want_file)}"})
+        p.cut("fin")
+        return viol, mon
+    finally:
+        await w.stop()
+        w.cleanup()
+
+
 def run_case(case):
     out = {"violations": [], "monitors": {}, "sigs": []}
     for plan in case["plans"]:
         async def main(net, hyg, plan=plan):
             if plan.get("scenario") == "slow_reader":
                 return await slow_reader(net, hyg, plan)
+            if plan.get("scenario") == "pipelined_rest":
+                return await pipelined_rest(net, hyg, plan)
             return await transfer(net, hyg, plan)
         res, info = W.run(main, seed=plan["seed"], net_kwargs=dict(latency=0.0005))
         if res is None:
@@ -612,5 +686,12 @@ def gen_cases(tier, seed):
                 j += 1
                 plans.append({"scenario": "slow_reader", "seed": seed * 31 + j, "size": size, "socket_timeout": T, "chunk": 8192, "gap": 0.0005,
                               "pause_at": pause_at, "pause": 3 * T, "block_size": 8192, "kind": CONTENT[j % len(CONTENT)]})
+    for backend, extra in (("memory", {}), ("memory", {"backend_delay": 0.001}), ("async", {"exec_delay": 0.0007}), ("pathio", {})):
+        for commands in (["REST {k}", "RETR /d/f.bin", "PWD"], ["REST {k}", "RETR /d/f.bin", "SYST", "NOOP"], ["REST {k}", "SYST", "RETR /d/f.bin"],
+                         ["REST {k}", "NOOP", "RETR /d/f.bin", "PWD"], ["REST {k}", "STOR /d/f.bin", "PWD"], ["REST {k}", "PWD", "STOR /d/f.bin"],
+                         ["REST {k}", "APPE /d/f.bin", "MLST /d/f.bin"], ["REST 3", "REST {k}", "RETR /d/f.bin", "REST 9"]):
+            j += 1
+            plans.append({"scenario": "pipelined_rest", "seed": seed * 31 + j, "size": [10240, 300, 70000][j % 3], "offset": [5, 100, 299][j % 3],
+                          "backend": backend, "commands": commands, "block_size": 8192, "kind": CONTENT[j % len(CONTENT)], **extra})
     per = 10
     return [{"plans": plans[i:i + per]} for i in range(0, len(plans), per)]
